@@ -574,4 +574,256 @@ theorem reach_launchInv {g : List NodeInfo} {s : State} (h : Reach g s) : Launch
   | init => exact launchInv_init g
   | step hr hen ih => exact launchInv_step hen (reach_objsInv hr) ih
 
+
+/-! ### finished nodes -/
+
+theorem forkStateOf_done {fm jm cs sm} :
+    (forkStateOf fm jm cs sm = .complete ∨ forkStateOf fm jm cs sm = .disabled) ↔
+      (fm = some .complete ∨ fm = some .disabled) := by
+  unfold forkStateOf
+  repeat' split
+  all_goals simp_all
+
+theorem forkState_done {s : State} {n f : Nat} :
+    (forkState s n f = .complete ∨ forkState s n f = .disabled) ↔ fmDone s n f = true := by
+  unfold forkState fmDone
+  rw [forkStateOf_done]; simp
+
+theorem scanForks_done {l : List FState} {d : Bool} :
+    (∃ d', scanForks l d = .done d') ↔ ∀ x ∈ l, x = .complete ∨ x = .disabled := by
+  induction l generalizing d with
+  | nil => simp [scanForks]
+  | cons a r ih =>
+    cases a <;> simp [scanForks, ih]
+
+theorem nodeDone_iff {s : State} {n : Nat} :
+    nodeDone s n = true ↔ ∀ f ∈ s.forksOf n, fmDone s n f = true := by
+  unfold nodeDone
+  have : (∃ d', scanForks (forkStates s n) true = .done d') ↔
+      ∀ f ∈ s.forksOf n, fmDone s n f = true := by
+    rw [scanForks_done]; simp [forkStates, forkState_done]
+  rw [← this]
+  cases scanForks (forkStates s n) true <;> simp
+
+theorem fmDone_iff {s : State} {n f : Nat} :
+    fmDone s n f = true ↔
+      (s.m ⟨n, f, .fork⟩).seen.has .errors = false ∧ (s.m ⟨n, f, .fork⟩).seen.has .assert = false ∧
+      ((s.m ⟨n, f, .fork⟩).seen.has .complete = true ∨ (s.m ⟨n, f, .fork⟩).seen.has .disabled = true) := by
+  unfold fmDone State.st
+  rw [metaState_eq]
+  generalize (s.m ⟨n, f, .fork⟩).seen = x
+  cases h1 : x.has .errors <;> cases h2 : x.has .assert <;> cases h3 : x.has .complete <;>
+    cases h4 : x.has .disabled <;> cases h5 : x.has .log <;> cases h6 : x.has .jobinfo <;> simp
+
+theorem resetOk_isJob {s : State} {o : Obj} (h : resetOk s o = true) : o.r.isJob = true := by
+  unfold resetOk at h; simp only [Bool.and_eq_true] at h; exact h.1.2
+
+/-- a fork's own `_errors`/`_assert` appears only while the fork is not finished -/
+theorem fork_fail_origin {s : State} {e : Ev} {o : Obj} {y : Sentinel} (hinv : ObjsInv s)
+    (hen : enabled s e = true) (hr : o.r = .fork) (hy : y = .errors ∨ y = .assert)
+    (h : ((apply s e).m o).seen.has y = true) :
+    (s.m o).seen.has y = true ∨ fmDone s o.n o.f = false := by
+  have hfe := (hinv o).forkEq hr y
+  rw [apply_m] at h
+  cases e <;> simp only [] at h <;> try exact Or.inl h
+  case W o' x =>
+    split at h
+    · rename_i heq; subst heq
+      simp only [put, has_add, Bool.or_eq_true, decide_eq_true_eq] at h
+      rcases h with rfl | h
+      · rcases (en_W hen).2.2 with hd | hw
+        · exact Or.inl (hfe hd)
+        · unfold mrpWriteOk at hw
+          rcases hy with rfl | rfl <;> simp [hr] at hw
+          exact Or.inr hw
+      · exact Or.inl h
+    · exact Or.inl h
+  case R o' x =>
+    split at h
+    · rename_i heq; subst heq
+      simp only [see, has_add, Bool.or_eq_true, decide_eq_true_eq] at h
+      rcases h with rfl | h
+      · exact Or.inl (hfe (en_R hen).2.2)
+      · exact Or.inl h
+    · exact Or.inl h
+  case D o' x =>
+    split at h
+    · rename_i heq; subst heq
+      simp only [see, has_add, Bool.or_eq_true, decide_eq_true_eq] at h
+      rcases h with rfl | h
+      · exact Or.inl (hfe (en_D hen).2.2)
+      · exact Or.inl h
+    · exact Or.inl h
+  case U o' x =>
+    split at h
+    · rename_i heq; subst heq
+      simp only [unq, has_del, Bool.and_eq_true] at h; exact Or.inl h.2
+    · exact Or.inl h
+  case launch o' =>
+    split at h
+    · rename_i heq; subst heq
+      have := (launchOk_facts (en_launch hen)).1; simp [hr, Role.isJob] at this
+    · exact Or.inl h
+  case joblog o' =>
+    split at h
+    · rename_i heq; subst heq
+      have := (en_joblog hen).1; simp [hr, Role.isJob] at this
+    · exact Or.inl h
+  case jobend o' x =>
+    split at h
+    · rename_i heq; subst heq
+      have := (en_jobend hen).1; simp [hr, Role.isJob] at this
+    · exact Or.inl h
+  case silentfail o' =>
+    split at h
+    · rename_i heq; subst heq
+      have := (en_silentfail hen).2.1; simp [hr, Role.isJob] at this
+    · exact Or.inl h
+  case reset o' =>
+    split at h
+    · simp at h
+    · exact Or.inl h
+  case restart => exact Or.inl (hfe h)
+
+theorem fmDone_stable {s : State} {e : Ev} {n f : Nat} (hinv : ObjsInv s)
+    (hen : enabled s e = true) (h : fmDone s n f = true) : fmDone (apply s e) n f = true := by
+  have hne : e ≠ .reset ⟨n, f, .fork⟩ := by
+    intro he; subst he
+    have := resetOk_isJob (en_reset hen); simp [Role.isJob] at this
+  rw [fmDone_iff] at h ⊢
+  obtain ⟨h1, h2, h3⟩ := h
+  refine ⟨?_, ?_, ?_⟩
+  · cases hc : ((apply s e).m ⟨n, f, .fork⟩).seen.has .errors
+    · rfl
+    · rcases fork_fail_origin (o := ⟨n, f, .fork⟩) hinv hen rfl (Or.inl rfl) hc with a | a
+      · simp [h1] at a
+      · have : fmDone s n f = true := fmDone_iff.mpr ⟨h1, h2, h3⟩
+        simp [this] at a
+  · cases hc : ((apply s e).m ⟨n, f, .fork⟩).seen.has .assert
+    · rfl
+    · rcases fork_fail_origin (o := ⟨n, f, .fork⟩) hinv hen rfl (Or.inr rfl) hc with a | a
+      · simp [h2] at a
+      · have : fmDone s n f = true := fmDone_iff.mpr ⟨h1, h2, h3⟩
+        simp [this] at a
+  · rcases h3 with a | a
+    · exact Or.inl (seen_mono hinv hne (by simp) a)
+    · exact Or.inr (seen_mono hinv hne (by simp) a)
+
+theorem apply_forksOf (s : State) (e : Ev) (n : Nat) : (apply s e).forksOf n =
+    match e with
+    | .fork n' f => if n' = n then s.forksOf n' ++ [f] else s.forksOf n
+    | .forkorder n' l => if n' = n then l else s.forksOf n
+    | _ => s.forksOf n := by
+  cases e <;> simp [apply, State.forksOf, State.updMeta, aget_aset]
+
+theorem isSubNodup_mem {l l' : List Nat} (h : isSubNodup l l' = true) : ∀ a ∈ l, a ∈ l' := by
+  induction l with
+  | nil => simp
+  | cons a r ih =>
+    simp only [isSubNodup, Bool.and_eq_true] at h
+    intro b hb
+    rcases List.mem_cons.mp hb with rfl | hb
+    · simpa using h.1.1
+    · exact ih h.2 b hb
+
+/-- C02 `done_stable`: a finished node stays finished (complete/disabled never
+reverts); the only exception is a fork added while the graph is (re)loaded. -/
+theorem done_stable {s : State} {e : Ev} {p : Nat} (hinv : ObjsInv s) (hen : enabled s e = true)
+    (hc : s.phase = .normal ∨ ∀ f, e ≠ .fork p f) (hd : nodeDone s p = true) :
+    nodeDone (apply s e) p = true := by
+  rw [nodeDone_iff] at hd ⊢
+  intro f hf
+  apply fmDone_stable hinv hen
+  apply hd
+  rw [apply_forksOf] at hf
+  cases e <;> simp only [] at hf <;> try exact hf
+  case fork n' f' =>
+    split at hf
+    · rename_i heq; subst heq
+      rcases hc with hc | hc
+      · have := ((en_fork hen).2.2.2 hc).1
+        have hd' : nodeDone s n' = true := nodeDone_iff.mpr hd
+        simp [hd'] at this
+      · exact absurd rfl (hc f')
+    · exact hf
+  case forkorder n' l =>
+    split at hf
+    · rename_i heq; subst heq
+      exact isSubNodup_mem (en_forkorder hen).2 f hf
+    · exact hf
+
+
+/-! ### a node the scheduler believes to be running has finished prenodes -/
+
+theorem apply_cachedOf (s : State) (e : Ev) (n : Nat) : (apply s e).cachedOf n =
+    match e with
+    | .nodestate n' st => if n' = n then st else s.cachedOf n
+    | _ => s.cachedOf n := by
+  cases e <;> simp [apply, State.cachedOf, State.updMeta, aget_aset]
+
+theorem nodeState_running {s : State} {n : Nat} (h : nodeState s n = .running) :
+    ∀ p ∈ s.pre n, nodeDone s p = true := by
+  unfold nodeState nodeStateOf at h
+  split at h <;> try contradiction
+  split at h
+  · rename_i hp; simpa [List.all_eq_true] using hp
+  · contradiction
+
+def PreInv (s : State) : Prop :=
+  s.phase = .normal → ∀ n, s.cachedOf n = .running → ∀ p ∈ s.pre n, nodeDone s p = true
+
+theorem pre_out_of_range {s : State} {n : Nat} (h : ¬ n < s.nodes.length) : s.pre n = [] := by
+  have : s.nodes[n]? = none := by simpa using Nat.le_of_not_lt h
+  simp [State.pre, this]
+
+theorem preInv_step {s : State} {e : Ev} (hinv : ObjsInv s) (hen : enabled s e = true)
+    (h : PreInv s) : PreInv (apply s e) := by
+  intro hph n hc p hp
+  rw [apply_pre] at hp
+  -- the phase before
+  by_cases hs : s.phase = .normal
+  · -- ordinary step in the normal phase
+    by_cases hns : ∃ st, e = .nodestate n st
+    · obtain ⟨st, rfl⟩ := hns
+      simp only [apply_cachedOf, if_true] at hc
+      subst hc
+      have := nodeState_running (en_nodestate hen).2.2.symm p hp
+      exact done_stable hinv hen (Or.inl hs) this
+    · have hc' : s.cachedOf n = .running := by
+        rw [apply_cachedOf] at hc
+        cases e <;> simp only [] at hc <;> try exact hc
+        case nodestate n' st =>
+          split at hc
+          · rename_i heq; subst heq; exact absurd ⟨st, rfl⟩ hns
+          · exact hc
+      exact done_stable hinv hen (Or.inl hs) (h hs n hc' p hp)
+  · -- the step that enters the normal phase: `refresh` after loading
+    rw [apply_phase] at hph
+    cases e <;> simp only [] at hph <;> try exact absurd hph hs
+    case restart => cases hph
+    case crash => cases hph
+    case refresh =>
+      have hl : s.phase = .loading := by
+        cases hq : s.phase
+        · rfl
+        · exact absurd hq hs
+        · exact absurd hq (en_refresh hen).1
+      have hfresh := (en_refresh hen).2 hl
+      have hc' : s.cachedOf n = .running := by simpa [apply_cachedOf] using hc
+      by_cases hn : n < s.nodes.length
+      · have : s.cachedOf n = nodeState s n := by
+          simp only [allFresh, List.all_eq_true, List.mem_range, beq_iff_eq] at hfresh
+          exact hfresh n hn
+        have := nodeState_running (this ▸ hc') p hp
+        exact done_stable hinv hen (Or.inr (by simp)) this
+      · rw [pre_out_of_range hn] at hp; cases hp
+
+theorem preInv_init (g : List NodeInfo) : PreInv (init g) := by
+  intro h; simp [init] at h
+
+theorem reach_preInv {g : List NodeInfo} {s : State} (h : Reach g s) : PreInv s := by
+  induction h with
+  | init => exact preInv_init g
+  | step hr hen ih => exact preInv_step (reach_objsInv hr) hen ih
+
 end Martian.Sched
